@@ -290,6 +290,8 @@ func runC08(e *Engine, r *Report) {
 			})
 		}
 	}
+	ruleSnapshotStatusReported(e, r)
+	ruleShrunkPredicate(e, r)
 }
 
 func derefNamed(t types.Type) types.Type {
